@@ -7,6 +7,8 @@
 //! ops: ks ks_assign auto auto_assign auto_add auto_add_assign auto_sub auto_sub_assign auto_subneg
 //!      auto_subneg_assign trace trace_assign lwe_ks glwe_to_lwe lwe_to_glwe extract
 //!      gglwe_ks gglwe_ks_assign atk_auto atk_auto_assign   (`r0= adnum= adsize= rdnum= pa=`: the GGLWE operand / result)
+//!      ggsw_ks ggsw_ks_assign ggsw_auto ggsw_auto_assign   (extra answer fields `tsk=<GGLWE@…>` (the rank tensor keys) `m2=<poly>`;
+//!                                                          `a`/`res` = GGSW cells (row, column) joined by `/`)
 //!      pack packer   (`slots=<i,j,…>` `lgap=<log_gap_out | log_batch>`; `a=<slot:ct@slot:ct…>`)
 //!
 //! Answer line: `id ok skin=<polys> skout=<polys> keys=<p:GGLWE@p:GGLWE…> a=<ct> res=<ct>` or `id panic:<class>`.
@@ -24,10 +26,10 @@ use std::io::{BufRead, Write};
 
 use poulpy_core::{
     EncryptionLayout, GLWEAutomorphism, GLWEAutomorphismKeyEncryptSk, GLWEEncryptSk, GLWEFromLWE, GLWEKeyswitch,
-    GGLWEKeyswitch, GLWEAutomorphismKeyAutomorphism, GLWEPacker, GLWEPacking, GLWESwitchingKeyEncryptSk, GLWEToLWESwitchingKeyEncryptSk, GLWETrace, glwe_packer_add, glwe_packer_flush, LWEEncryptSk, LWEFromGLWE, LWEKeySwitch, LWESampleExtract,
+    GGLWEKeyswitch, GGLWEToGGSWKeyEncryptSk, GGSWAutomorphism, GGSWEncryptSk, GGSWKeyswitch, GLWEAutomorphismKeyAutomorphism, GLWEPacker, GLWEPacking, GLWESwitchingKeyEncryptSk, GLWEToLWESwitchingKeyEncryptSk, GLWETrace, glwe_packer_add, glwe_packer_flush, LWEEncryptSk, LWEFromGLWE, LWEKeySwitch, LWESampleExtract,
     LWESwitchingKeyEncrypt, LWEToGLWESwitchingKeyEncryptSk,
     layouts::{
-        Base2K, Degree, Dnum, Dsize, GGLWEInfos, GGLWEToRef, GLWE, GLWEAutomorphismKey, GLWEAutomorphismKeyLayout,
+        Base2K, Degree, Dnum, Dsize, GGLWEInfos, GGLWEToGGSWKey, GGLWEToGGSWKeyLayout, GGLWEToGGSWKeyPreparedFactory, GGLWEToRef, GGSW, GGSWLayout, GLWE, GLWEAutomorphismKey, GLWEAutomorphismKeyLayout,
         GLWEAutomorphismKeyPrepared, GLWEAutomorphismKeyPreparedFactory, GLWELayout, GLWEPlaintext, GLWESecret,
         GLWESecretPrepared, GLWESecretPreparedFactory, GLWESwitchingKey, GLWESwitchingKeyLayout, GLWESwitchingKeyPrepared,
         GLWESwitchingKeyPreparedFactory, GLWEToLWEKey, GLWEToLWEKeyLayout, GLWEToLWEKeyPrepared, GLWEToLWEKeyPreparedFactory, LWE,
@@ -558,6 +560,161 @@ macro_rules! ks_backend {
                     }
                     let s = fmt_secret(&secret_twin(n, rank, seed32(c.seed, 0)));
                     format!("ok skin={} skout={} keys={}:{} a={} res={}", s, s, c.p, fmt_gglwe(&atk), a_txt, res_txt)
+                }
+                "ggsw_ks" | "ggsw_ks_assign" | "ggsw_auto" | "ggsw_auto_assign" => {
+                    // GGSW key-switch / automorphism: per-row GLWE form on column 0, then row expansion with the tensor key.
+                    // A: GGSW(m2) under sk_in (layout bin/kin/adnum/adsize); key (and tensor key) layout bkey/kkey/dnum/dsize
+                    let rank = c.rin;
+                    let is_ks = c.op.starts_with("ggsw_ks");
+                    let mut sk_out = GLWESecret::alloc(Degree(n as u32), Rank(rank as u32));
+                    sk_out.fill_ternary_prob(0.5, &mut Source::new(seed32(c.seed, 1)));
+                    let mut sk_in = GLWESecret::alloc(Degree(n as u32), Rank(rank as u32));
+                    sk_in.fill_ternary_prob(0.5, &mut Source::new(seed32(c.seed, if is_ks { 0 } else { 1 })));
+                    let mut sk_in_prep: GLWESecretPrepared<DeviceBuf<BE>, BE> = module.glwe_secret_prepared_alloc(Rank(rank as u32));
+                    module.glwe_secret_prepare(&mut sk_in_prep, &sk_in);
+                    let tsk_infos = GGLWEToGGSWKeyLayout {
+                        n: Degree(n as u32),
+                        base2k: Base2K(c.bkey as u32),
+                        k: TorusPrecision(c.kkey as u32),
+                        rank: Rank(rank as u32),
+                        dnum: Dnum(c.dnum as u32),
+                        dsize: Dsize(c.dsize as u32),
+                    };
+                    let tsk_enc = EncryptionLayout::new_from_default_sigma(tsk_infos).unwrap();
+                    let mut tsk: GGLWEToGGSWKey<Vec<u8>> = GGLWEToGGSWKey::alloc_from_infos(&tsk_infos);
+                    module.gglwe_to_ggsw_key_encrypt_sk(&mut tsk, &sk_out, &tsk_enc, &mut source_xe, &mut source_xa, scratch.borrow());
+                    let mut tsk_prep = module.gglwe_to_ggsw_key_prepared_alloc_from_infos(&tsk);
+                    module.gglwe_to_ggsw_key_prepare(&mut tsk_prep, &tsk, scratch.borrow());
+                    let tsk_txt: Vec<String> = (0..rank).map(|i| fmt_gglwe(tsk.at(i))).collect();
+                    // plaintext m2: small dense polynomial
+                    let mut pt = ScalarZnx::alloc(n, 1);
+                    {
+                        let mut g = Sm(c.seed ^ 0x5151);
+                        for x in pt.at_mut(0, 0).iter_mut() {
+                            *x = match c.cls.as_str() {
+                                "zero" => 0,
+                                "ext" | "extp" => 1,
+                                _ => g.digit(2),
+                            };
+                        }
+                        if c.cls == "alt" {
+                            pt.at_mut(0, 0).fill(0);
+                            pt.at_mut(0, 0)[(c.seed as usize) % n] = 1;
+                        }
+                    }
+                    let a_infos = GGSWLayout {
+                        n: Degree(n as u32),
+                        base2k: Base2K(c.bin as u32),
+                        k: TorusPrecision(c.kin as u32),
+                        rank: Rank(rank as u32),
+                        dnum: Dnum(c.adnum as u32),
+                        dsize: Dsize(c.adsize as u32),
+                    };
+                    let a_enc = EncryptionLayout::new_from_default_sigma(a_infos).unwrap();
+                    let mut a: GGSW<Vec<u8>> = GGSW::alloc_from_infos(&a_infos);
+                    module.ggsw_encrypt_sk(&mut a, &pt, &sk_in_prep, &a_enc, &mut source_xe, &mut source_xa, scratch.borrow());
+                    let fmt_cells = |g: &GGSW<Vec<u8>>, dnum: usize| -> String {
+                        let mut v = Vec::new();
+                        for r in 0..dnum {
+                            for ci in 0..rank + 1 {
+                                v.push(fmt_vec(g.at(r, ci).data()));
+                            }
+                        }
+                        v.join("/")
+                    };
+                    let a_txt = fmt_cells(&a, c.adnum);
+                    let res_infos = GGSWLayout {
+                        n: Degree(n as u32),
+                        base2k: Base2K(c.bout as u32),
+                        k: TorusPrecision(c.kout as u32),
+                        rank: Rank(rank as u32),
+                        dnum: Dnum(c.rdnum as u32),
+                        dsize: Dsize(c.adsize as u32),
+                    };
+                    let assign = c.op.ends_with("_assign");
+                    let mut res: GGSW<Vec<u8>> = if assign { a.clone() } else { GGSW::alloc_from_infos(&res_infos) };
+                    if !assign {
+                        for r in 0..c.rdnum {
+                            for ci in 0..rank + 1 {
+                                for (i, x) in res.at_mut(r, ci).data_mut().raw_mut().iter_mut().enumerate() {
+                                    *x = 0x7777 + i as i64;
+                                }
+                            }
+                        }
+                    }
+                    let key_txt;
+                    let r;
+                    if is_ks {
+                        let k_infos = EncryptionLayout::new_from_default_sigma(GLWESwitchingKeyLayout {
+                            n: Degree(n as u32),
+                            base2k: Base2K(c.bkey as u32),
+                            k: TorusPrecision(c.kkey as u32),
+                            dnum: Dnum(c.dnum as u32),
+                            dsize: Dsize(c.dsize as u32),
+                            rank_in: Rank(rank as u32),
+                            rank_out: Rank(rank as u32),
+                        })
+                        .unwrap();
+                        let mut ksk: GLWESwitchingKey<Vec<u8>> = GLWESwitchingKey::alloc_from_infos(&k_infos);
+                        module.glwe_switching_key_encrypt_sk(&mut ksk, &sk_in, &sk_out, &k_infos, &mut source_xe, &mut source_xa, scratch.borrow());
+                        let mut kp: GLWESwitchingKeyPrepared<DeviceBuf<BE>, BE> = module.glwe_switching_key_prepared_alloc_from_infos(&ksk);
+                        module.glwe_switching_key_prepare(&mut kp, &ksk, scratch.borrow());
+                        key_txt = format!("0:{}", fmt_gglwe(&ksk));
+                        dirty(&mut scratch);
+                        r = std::panic::catch_unwind(std::panic::AssertUnwindSafe(|| {
+                            if assign {
+                                module.ggsw_keyswitch_assign(&mut res, &kp, &tsk_prep, scratch.borrow());
+                            } else {
+                                module.ggsw_keyswitch(&mut res, &a, &kp, &tsk_prep, scratch.borrow());
+                            }
+                        }));
+                    } else {
+                        let k_infos = EncryptionLayout::new_from_default_sigma(GLWEAutomorphismKeyLayout {
+                            n: Degree(n as u32),
+                            base2k: Base2K(c.bkey as u32),
+                            k: TorusPrecision(c.kkey as u32),
+                            rank: Rank(rank as u32),
+                            dnum: Dnum(c.dnum as u32),
+                            dsize: Dsize(c.dsize as u32),
+                        })
+                        .unwrap();
+                        let mut atk: GLWEAutomorphismKey<Vec<u8>> = GLWEAutomorphismKey::alloc_from_infos(&k_infos);
+                        module.glwe_automorphism_key_encrypt_sk(&mut atk, c.p, &sk_out, &k_infos, &mut source_xe, &mut source_xa, scratch.borrow());
+                        let mut kp: GLWEAutomorphismKeyPrepared<DeviceBuf<BE>, BE> = module.glwe_automorphism_key_prepared_alloc_from_infos(&atk);
+                        module.glwe_automorphism_key_prepare(&mut kp, &atk, scratch.borrow());
+                        key_txt = format!("{}:{}", c.p, fmt_gglwe(&atk));
+                        dirty(&mut scratch);
+                        r = std::panic::catch_unwind(std::panic::AssertUnwindSafe(|| {
+                            if assign {
+                                module.ggsw_automorphism_assign(&mut res, &kp, &tsk_prep, scratch.borrow());
+                            } else {
+                                module.ggsw_automorphism(&mut res, &a, &kp, &tsk_prep, scratch.borrow());
+                            }
+                        }));
+                    }
+                    let res_txt = match r {
+                        Ok(()) => fmt_cells(&res, if assign { c.adnum } else { c.rdnum }),
+                        Err(e) => {
+                            let msg = if let Some(s) = e.downcast_ref::<String>() {
+                                s.clone()
+                            } else if let Some(s) = e.downcast_ref::<&str>() {
+                                s.to_string()
+                            } else {
+                                String::new()
+                            };
+                            format!("panic:{}", panic_class(&msg))
+                        }
+                    };
+                    format!(
+                        "ok skin={} skout={} keys={} tsk={} m2={} a={} res={}",
+                        fmt_secret(&secret_twin(n, rank, seed32(c.seed, if is_ks { 0 } else { 1 }))),
+                        fmt_secret(&secret_twin(n, rank, seed32(c.seed, 1))),
+                        key_txt,
+                        tsk_txt.join("@"),
+                        fmt_poly(pt.at(0, 0)),
+                        a_txt,
+                        res_txt
+                    )
                 }
                 "lwe_ks" => {
                     let mut sk_in = LWESecret::alloc(Degree(c.nlin as u32));
